@@ -22,6 +22,52 @@ def save(obj):
     return f.getvalue()
 
 
+def api_paths_agree(obj, b, key, case, files=False):
+    """The library offers several ways to the same bytes and back: write_to(file object) [= `save`], read(), a real
+    file given as str or Path, clone().  They must agree with each other (a fault in only one of them is invisible
+    to a harness that always uses the same one)."""
+    import os
+    import pathlib
+    import tempfile
+
+    from rv.readers.reader import read_sunvox_file
+
+    vs = []
+    try:
+        r = obj.read()
+    except Exception as e:
+        return [viol("read()-raises-where-write_to-works", dict(key, exc=type(e).__name__), {"error": repr(e)[:200]}, case)]
+    if r != b:
+        vs.append(viol("read()-differs-from-write_to", dict(key), {"lens": [len(r), len(b)]}, case))
+    if files:
+        d = tempfile.mkdtemp(prefix="rvmc-paths-")
+        path = os.path.join(d, "x.bin")
+        try:
+            with open(path, "wb") as fh:
+                obj.write_to(fh)
+            on_disk = open(path, "rb").read()
+            if on_disk != b:
+                vs.append(viol("file-on-disk-differs-from-write_to", dict(key), {"lens": [len(on_disk), len(b)]}, case))
+            want = S.snapshot(load_bytes(b))
+            for how, arg in (("str", path), ("Path", pathlib.Path(path))):
+                got = S.snapshot(read_sunvox_file(arg))
+                dd = S.diff(want, got)
+                if dd:
+                    vs.append(viol("load-by-path-differs-from-load-by-file-object", dict(key, how=how, path=first_diff_key(dd)),
+                                   {"diff": S.diff_text(dd)}, case))
+            with open(path, "rb") as fh:
+                got = S.snapshot(read_sunvox_file(fh))
+            if S.diff(want, got):
+                vs.append(viol("load-by-path-differs-from-load-by-file-object", dict(key, how="real-file-object"), {}, case))
+        except Exception as e:
+            vs.append(viol("file-path-io-raises", dict(key, exc=type(e).__name__), {"error": repr(e)[:200]}, case))
+        finally:
+            if os.path.exists(path):
+                os.unlink(path)
+            os.rmdir(d)
+    return vs
+
+
 def norm_name(s, limit=32):
     """N10: longest prefix whose UTF-8 form fits `limit` bytes."""
     if s is None:
